@@ -321,11 +321,11 @@ def word_alphabet(fmt, enc):
         if re.match(r"#[0-9]{3}\Z", word) or word.startswith("#BOS") or word.startswith("#EOS") or word.startswith("%%"):
             return "w" + word
         return word
-    extra = paren_family
+    extra = st.one_of(paren_family, st.sampled_from(["#1", "#42", "#1234"]))   # '#' + exactly three digits would be a node reference
     if fmt != "export":
         # no-break / ideographic spaces are ordinary characters of a token in the formats whose tokens are delimited by ASCII
         # whitespace or XML attributes (the export reader documents whitespace-separated columns and cannot carry them)
-        extra = st.one_of(paren_family, st.sampled_from(["10\u00a0000", "x\u00a0"] + (["a\u3000b"] if enc == "utf-8" else [])))
+        extra = st.one_of(extra, st.sampled_from(["10\u00a0000", "x\u00a0"] + (["a\u3000b"] if enc == "utf-8" else [])))
     return st.one_of(base, base, extra).map(safe)
 
 
